@@ -43,6 +43,15 @@ Proof.
 Qed.
 Print Assumptions c20_verdict_independent_of_warning_options.
 
+(* Every place the front end and the tools report a diagnostic from with a literal code (the list is regenerated from
+   the sources: ERRORreport, ERRORreport_with_symbol, ERRORreport_with_line) hands over exactly as many arguments as the
+   format of that code has conversions: no %s prints a stale or missing argument, no offending name handed over is
+   dropped by the format. *)
+Theorem c20_every_report_passes_what_its_format_quotes : forall code passed, In (code, passed) report_sites ->
+  in_table code /\ e_nargs (entry code) = passed.
+Proof. exact report_sites_match_formats. Qed.
+Print Assumptions c20_every_report_passes_what_its_format_quotes.
+
 Example c20_example :
   (* IMPLICIT_DOWNCAST (code 14, class downcast) is off by default, on with -w, off again with -i *)
   enabled (process_options []) 14 = false /\
